@@ -505,7 +505,9 @@ def _(self, block):
 
 @contract('TokenStore.__init__')
 def _(self):
-    modifies('TokenStore._blocks@self', 'TokenStore._len@self', 'TokenStore.g_off@self', 'TokenStore.g_vlen@self', 'TokenStore.g_view@self')
+    modifies('TokenStore._blocks@self', 'TokenStore._len@self', 'TokenStore.g_off@self', 'TokenStore.g_vlen@self', 'TokenStore.g_view@self',
+             '_StoreBlock.store@fresh', '_StoreBlock.index@fresh', '_StoreBlock.tokens@fresh', '_StoreBlock.size@fresh', '_StoreBlock.last_newline_index@fresh',
+             'Position.line@fresh', 'Position.column@fresh', 'list[_StoreBlock]@fresh', 'list[Token]@fresh')
     ghost('g_off', lambda k: 0)
     ghost('g_vlen', 0)
     ensures(Inv2(self) and SizesOK(self) and self.g_vlen == 0 and fresh(self._blocks))
